@@ -76,6 +76,7 @@ type Cluster struct {
 	scratch string
 
 	claimed    map[string]time.Duration
+	catAt      time.Duration // last time a catalogue block was proposed
 	parts      [][]int // current partition (groups of node indices); nil = fully connected
 	stopReason string
 	trace      []string
@@ -243,7 +244,11 @@ func drawConfig(c *kernel.Ctx, mode Mode) Config {
 		}
 		kinds := []string{"silent", "equivocate-votes", "equivocate-proposals", "selective", "amnesia-helper"}
 		for k := 0; k < cfg.NByz; k++ {
-			cfg.ByzKinds = append(cfg.ByzKinds, kinds[t.Int(len(kinds))])
+			kind := kinds[t.Int(len(kinds))]
+			if mode == ModeValidation && k == 0 {
+				kind = "catalogue"
+			}
+			cfg.ByzKinds = append(cfg.ByzKinds, kind)
 		}
 	}
 	return cfg
@@ -576,6 +581,9 @@ func (cl *Cluster) done() bool {
 		}
 		if n.chain.BlockStore.Height() < target {
 			return false
+		}
+		if cl.mode == ModeValidation && cl.catAt > 0 && n.lastProg <= cl.catAt {
+			return false // wait for progress after the Byzantine turn
 		}
 	}
 	return true
